@@ -26,8 +26,16 @@ def _gen_history(rng):
     m = np.array([1.51, 4.92, 172.5]) * np.exp(rng.uniform(-0.1, 0.1, 3))
     masses2 = (m**2).tolist()
     ratios = np.exp(rng.uniform(np.log(0.5), np.log(2.0), 3)).tolist()
-    walls = [a * b for a, b in zip(masses2, ratios)]
     mu_ref = float(np.exp(rng.uniform(np.log(2.0), np.log(300.0))))
+    on_wall = None
+    if rng.integers(0, 8) == 0:
+        # the reference sits exactly on a matching scale (unit ratio): a zero-length first
+        # segment followed by segments that start at the reference scale with another nf
+        on_wall = int(rng.integers(0, 3))
+        mu_ref = float(np.sqrt(masses2[on_wall]))
+        masses2[on_wall] = mu_ref**2
+        ratios[on_wall] = 1.0
+    walls = [a * b for a, b in zip(masses2, ratios)]
     nfd = cp.nf_default(mu_ref**2, walls)
     p = dict(
         order=(int(rng.integers(1, 5)), int(rng.integers(0, 3))),
@@ -37,7 +45,7 @@ def _gen_history(rng):
         masses2=masses2,
         ratios=ratios,
         mu_ref=mu_ref,
-        nf_ref=int(np.clip(nfd + rng.choice([0, 0, -1, 1]), 3, 6)),
+        nf_ref=int(np.clip(nfd + rng.choice([0, 0, -1, 1]), 3, 6)) if on_wall is None else int(on_wall + 3 + rng.integers(0, 2)),
         alphas=float(rng.uniform(0.09, 0.2) if mu_ref > 10 else rng.uniform(0.15, 0.3)),
         alphaem=float(rng.uniform(0.005, 0.01)),
     )
@@ -55,6 +63,8 @@ def _gen_history(rng):
         else:
             mu2 = float(np.exp(rng.uniform(np.log(2.2**2), np.log(1000.0**2))))
         nf = [None, 3, 4, 5, 6][int(rng.integers(0, 5))]
+        if hist and rng.integers(0, 5) == 0:
+            mu2 = hist[-1]["mu2"]  # same scale as the previous query, (possibly) another nf
         hist.append(dict(mu2=mu2, nf=nf, mutate=str(rng.choice(["add", "nan", "zero", "none"], p=[0.35, 0.35, 0.2, 0.1])), api=str(rng.choice(["a", "a", "a_s", "a_em"]))))
     p["history"] = hist
     return p
